@@ -2721,17 +2721,22 @@ impl Machine {
         );
 
         loop {
-            match stream
-                .peek_char()
-                .map(|result| result.map_err(|e| e.kind()))
-            {
+            match stream.peek_char() {
                 Some(Ok(d)) => {
                     self.machine_st.unify_char(d, a2);
                     break;
                 }
-                Some(Err(ErrorKind::PermissionDenied)) => {
+                Some(Err(e)) if e.kind() == ErrorKind::PermissionDenied => {
                     self.machine_st.fail = true;
                     break;
+                }
+                Some(Err(e)) if e.kind() == ErrorKind::InvalidData => {
+                    // bytes that are not UTF-8 are an error here as they are
+                    // for get_char/2, not the end of the stream.
+                    let err = self
+                        .machine_st
+                        .session_error(SessionError::from(ParserError::from(e)));
+                    return Err(self.machine_st.error_form(err, stub_gen()));
                 }
                 _ => {
                     self.machine_st.eof_action(
@@ -2828,17 +2833,21 @@ impl Machine {
         );
 
         loop {
-            let result = stream.peek_char();
-
-            match result.map(|result| result.map_err(|e| e.kind())) {
+            match stream.peek_char() {
                 Some(Ok(c)) => {
                     self.machine_st
                         .unify_fixnum(Fixnum::build_with(u32::from(c)), addr);
                     break;
                 }
-                Some(Err(ErrorKind::PermissionDenied)) => {
+                Some(Err(e)) if e.kind() == ErrorKind::PermissionDenied => {
                     self.machine_st.fail = true;
                     break;
+                }
+                Some(Err(e)) if e.kind() == ErrorKind::InvalidData => {
+                    let err = self
+                        .machine_st
+                        .session_error(SessionError::from(ParserError::from(e)));
+                    return Err(self.machine_st.error_form(err, stub_gen()));
                 }
                 _ => {
                     self.machine_st.eof_action(
